@@ -1020,6 +1020,13 @@ class _Linalg:
 
     @staticmethod
     def eigh(a, *args, **kw):
+        v = _obj(a)
+        if builtins.all(x.is_const() for x in v.flatten()):
+            # concrete input: numpy's eigh, entries enter as exact rationals of the doubles (inexact, see DESIGN 6.3)
+            env = {i: float(core.CTX.rules[i].cval()) ** 0.5 for i in range(len(core.CTX.names)) if core.CTX.kind[i] == "alg"}
+            A = _np.array([[x.eval(env) for x in row] for row in v], dtype=complex)
+            w, U = _np.linalg.eigh(A)
+            return array(w), array(U)
         raise Cut("eigh")
 
     @staticmethod
